@@ -727,7 +727,19 @@ func checkProperty(prop, tier string) int {
 	nViol := 0
 	seenClass := map[string]bool{}
 	sort.Slice(violations, func(i, j int) bool { return violations[i].Seed < violations[j].Seed })
+	attempts := 0
 	for _, v := range violations {
+		// one report per class: a violation whose class (as the batch saw it) has been reported
+		// already is not replayed again, and at most six violations are worked through (each costs
+		// two to eight replays plus the minimiser; a change that makes every run hang would
+		// otherwise keep the check busy for hours)
+		if seenClass[classKey(v.Class)] {
+			continue
+		}
+		attempts++
+		if attempts > 6 || (attempts > 3 && len(reported) > 0) {
+			break
+		}
 		// reproduce twice in fresh processes
 		c1, d1, r1, wo1 := replayOnce(e, prop, v, fmt.Sprintf("v%d-a", v.Seed), false)
 		c2, _, _, _ := replayOnce(e, prop, v, fmt.Sprintf("v%d-b", v.Seed), false)
